@@ -215,7 +215,12 @@ func ZZ_C07_LongHistory(sv *zzsv.T) {
 	sv.Param("engine.msteps", 1000, 4000)
 	faults := []string{"return p / Z;", "panic(\"deep\");", "return nosuch(p);", "foreach q in [1, 2] { return q / Z; }"}
 	fault := faults[sv.Choice("fault", len(faults))]
+	// the failure happens two calls deep, or at the bottom of a recursion 40
+	// frames deep (so that 1 000 runs abandon 40 000 frames)
 	src := "function inner(p) { " + fault + " } function outer(p) { foreach v in [p, p] { x = inner(v) + 1; } return x; } n = n + 1; return outer(F) + n;"
+	if sv.Choice("deep", 2) == 1 {
+		src = "function inner(p) { " + fault + " } function down(k, p) { if (k <= 0) { return inner(p); } return down(k - 1, p) + 0; } function outer(p) { foreach v in [p, p] { x = down(40, v) + 1; } return x; } n = n + 1; return outer(F) + n;"
+	}
 	sv.Note("script", src)
 	runs := sv.Param("history.runs", 1000, 4000)
 	f := sv.Int64("F")
